@@ -5,7 +5,7 @@ import numpy as np
 
 from vf import common, models, refhash
 from vf.common import Violation
-from vf.world import sut
+from vf.world import _rotate_threads, sut
 
 from sketchnu.hll_constants import sub_algorithm_threshold
 from sketchnu.hyperloglog import HyperLogLog
@@ -100,6 +100,7 @@ def _task_inner(p, hseed, nmax_factor, with_ref, mode):
         decoy = HyperLogLog(16 if (n + p) % 2 else (8 if p != 8 else 9), n & 0xFFFF)  # sketches of other precisions come and go
         decoy.add(b"x")
         decoy.query()
+        _rotate_threads(n)
         est = float(sut(h.query))
         lc_n = m * math.log(m / (m - n)) if n < m else float("inf")
         if lc_n <= thr:
